@@ -50,6 +50,7 @@ type FuncV struct{ Alts []FuncAlt }
 type Text struct {
 	W, N, NL, CUU, ID T
 	Lit                *string // concrete content when known (constants and their concatenations)
+	SEQ, K             T       // order fingerprint: base-16 digits of the marked pieces in order, and their number (nil = none)
 }
 
 type StructV struct{ F []Value }
@@ -203,7 +204,9 @@ func (m *Machine) Merge(g T, a, b Value) Value {
 		if x.Lit != nil && y.Lit != nil && *x.Lit == *y.Lit {
 			lit = x.Lit
 		}
-		return Text{c.Ite(g, x.W, y.W), c.Ite(g, x.N, y.N), c.Ite(g, x.NL, y.NL), c.Ite(g, x.CUU, y.CUU), c.Ite(g, x.ID, y.ID), lit}
+		xs, xk := m.seqOf(x)
+		ys, yk := m.seqOf(y)
+		return Text{c.Ite(g, x.W, y.W), c.Ite(g, x.N, y.N), c.Ite(g, x.NL, y.NL), c.Ite(g, x.CUU, y.CUU), c.Ite(g, x.ID, y.ID), lit, c.Ite(g, xs, ys), c.Ite(g, xk, yk)}
 	case StructV:
 		y := b.(StructV)
 		out := make([]Value, len(x.F))
@@ -664,7 +667,8 @@ func (m *Machine) restrict(ls litSets, v Value) Value {
 	case SliceV:
 		return SliceV{m.restrictPtr(ls, x.Base), m.restrictT(ls, x.Len), m.restrictT(ls, x.Cap)}
 	case Text:
-		return Text{m.restrictT(ls, x.W), m.restrictT(ls, x.N), m.restrictT(ls, x.NL), m.restrictT(ls, x.CUU), m.restrictT(ls, x.ID), x.Lit}
+		xs, xk := m.seqOf(x)
+		return Text{m.restrictT(ls, x.W), m.restrictT(ls, x.N), m.restrictT(ls, x.NL), m.restrictT(ls, x.CUU), m.restrictT(ls, x.ID), x.Lit, m.restrictT(ls, xs), m.restrictT(ls, xk)}
 	case StructV:
 		out := make([]Value, len(x.F))
 		for i := range x.F {
@@ -707,4 +711,15 @@ func (m *Machine) restrict(ls litSets, v Value) Value {
 		return FuncV{out}
 	}
 	return v
+}
+
+func (m *Machine) seqOf(t Text) (T, T) {
+	s, k := t.SEQ, t.K
+	if s == nil {
+		s = m.IntC(0)
+	}
+	if k == nil {
+		k = m.IntC(0)
+	}
+	return s, k
 }
